@@ -787,7 +787,15 @@ def _k_eq(family, case, disc):
                     return True
         return False
 
-    return _all_fails(case, disc, "draw-rejected:DATAFRAME_CHECK:", fn)
+    if _all_fails(case, disc, "draw-rejected:DATAFRAME_CHECK:", fn):
+        return True
+    # the dataframe-level chain itself: failures are reported on the DataFrameSchema
+    fails = _fails(disc)
+    fc = case.get("checks") or []
+    names = [PA_NAME[c["c"]] for c in fc]
+    return bool(disc.kind.startswith("draw-rejected:DATAFRAME_CHECK:") and fails and all(
+        fl.get("schema") == "DataFrameSchema" and any(
+            c["c"] == "eq" and j >= 1 and fl["check"] in names[:j] for j, c in enumerate(fc)) for fl in fails))
 
 
 @known.finding("C13/frame-checks-override-column-checks")
@@ -846,6 +854,17 @@ def _k_null_unique(family, case, disc):
     if _all_fails(case, disc, "draw-rejected:SERIES_CONTAINS_DUPLICATES", fn):
         return True
     # joint uniqueness over columns of which at least one is nullable: duplicated all-null key tuples
+    if (disc.kind == "draw-validate-internal:ValueError" and joint and isinstance(disc.detail, dict)
+            and str(disc.detail.get("where", "")).endswith("reshape_failure_cases")
+            and any(f.get("nullable") for f in case.get("columns", []) if f["name"] in joint)):
+        # (the uniqueness report itself crashes on a non-unique index: the draw must show >=2 all-null key tuples)
+        snap = disc.detail.get("draw")
+        if isinstance(snap, dict) and snap.get("kind") == "pd.DataFrame":
+            cols = [c for n, c in zip(snap.get("columns", []), snap.get("cells", [])) if n in {repr(j) for j in joint}]
+            if cols and len(cols) == len(joint):
+                nullrows = sum(all(c[i] in ("nan", "None", "<NA>", "NaT") for c in cols) for i in range(len(cols[0])))
+                return nullrows >= 2
+        return False
     fails = _fails(disc)
     return bool(disc.kind == "draw-rejected:DUPLICATES" and joint and fails
                 and all(f.get("null_only") is True and f.get("schema") == "DataFrameSchema" for f in fails)
@@ -989,6 +1008,18 @@ def _k_tz_trunc(family, case, disc):
                for n in ("greater_than", "less_than", "not_equal_to", "notin", "in_range", "c13_ew_gt"))
 
 
+@known.finding("C13/failing-frame-check-on-multiindex-frame-raises-typeerror")
+def _k_mi_postprocess(family, case, disc):
+    if case.get("kind") != "dataframe" or not isinstance(case.get("index"), list) or not case.get("checks"):
+        return False
+    needle = "Must pass list-like as `names`"
+    if disc.kind == "strategy-crash:TypeError" and isinstance(disc.detail, dict):
+        return needle in disc.detail.get("msg", "") and "postprocess_table" in str(disc.detail.get("where", ""))
+    fails = _fails(disc)
+    return bool(disc.kind.startswith("draw-rejected:CHECK_ERROR:") and fails and all(
+        fl.get("schema") == "DataFrameSchema" and any(needle in str(v) for v in fl.get("cases", [])) for fl in fails))
+
+
 @known.finding("C13/numpy-str-strips-trailing-nul")
 def _k_nul(family, case, disc):
     def fn(role, f, segs, fl):
@@ -1008,7 +1039,7 @@ FAMILIES = [
                                                 "nullable", "unique", "arg-none", "literal-metachar",
                                                 "check=ew_gt", "check=vec_ge", "check=strat_le", "check=ext_ge",
                                                 "model=sat", "model=unsat", "clean", "free"]),
-    Family("frame", evaluate, strategy=st_frame_case, n_quick=60, n_thorough=800, shards_quick=6,
+    Family("frame", evaluate, strategy=st_frame_case, n_quick=55, n_thorough=800, shards_quick=6,
            shards_thorough=16, required_labels=["kind=dataframe", "kind=multiindex", "regex-column", "index=multi",
                                                 "index=single", "joint-unique", "frame-checks",
                                                 "frame+column-checks", "model=sat"]),
